@@ -246,6 +246,13 @@ def restructure_pkg(rng, pkg):
                     n = E.EClass(c.name) if rng.random() < .6 else E.EDataType(c.name, instanceClassName='int')
                     home.eClassifiers.append(n)
                     done.append(f'a new {type(n).__name__} named {c.name} added to package {home.name}')
+        elif k < .87 and classes:
+            refs = [f for c in classes for f in c.eStructuralFeatures if isinstance(f, E.EReference) and f.eOpposite is not None]
+            if refs:
+                f = rng.choice(refs)
+                g = f.eOpposite
+                f.eOpposite = None
+                done.append(f'eOpposite of {f.eContainingClass.name}.{f.name} (was {g.name}) cleared')
         elif classes:
             c = rng.choice(classes)
             new = c.name + 'R'
